@@ -47,3 +47,16 @@ package cfedistributor
 //@   prop C10 C12
 //@ loop InitGenesis#1
 //@   invariant 0 <= \i && \i <= len(genState.States) && $stLogN == old($stLogN) + \i
+
+//@ // export: the stored parameters and states; a burn state is written without its (empty) account, as State.Validate demands
+//@ func ExportGenesis(ctx, k) (genesis)
+//@   ensures genesis != nil && genesis.Params == $distParams
+//@   ensures forall i: int :: {genesis.States[i]} 0 <= i && i < len(genesis.States) ==> genesis.States[i] != nil && (genesis.States[i].Burn ==> genesis.States[i].Account == nil)
+//@   prop C12
+//@ loop ExportGenesis#1
+//@   invariant 0 <= \i && \i <= len(states) && genesis != nil && genesis.Params == $distParams && len(genesis.States) == 0
+//@   invariant forall j: int :: {states[j].Burn} 0 <= j && j < \i ==> (states[j].Burn ==> states[j].Account == nil)
+//@ loop ExportGenesis#2
+//@   invariant 0 <= i && i <= len(states) && genesis != nil && genesis.Params == $distParams && len(genesis.States) == i && off(genesis.States) == 0
+//@   invariant forall j: int :: {states[j].Burn} 0 <= j && j < len(states) ==> (states[j].Burn ==> states[j].Account == nil)
+//@   invariant forall j: int :: {genesis.States[j]} 0 <= j && j < i ==> genesis.States[j] != nil && (genesis.States[j].Burn ==> genesis.States[j].Account == nil)
